@@ -33,6 +33,7 @@ def base_case(variant: int, seed: int):
         "constraints": [], "relations": [], "penalties": [], "weights": [],
         "parameters": {"r": [0.4, 1.6]}, "free": ["r.1", "r.2"], "points": [],
         "clp_link_tolerance": 0.0, "clp_link_method": "nearest",
+        "expr_param": variant in (0, 2, 4),  # a parameter defined by an expression: part of the caller's scheme that must stay untouched
     }
     if variant == 1:  # two datasets sharing the faulting megacomplex (two model evaluations per objective evaluation), linked
         case["datasets"].append(ds("dsB", (1.0, 2.0, 3.5), seed + 1))
@@ -327,6 +328,7 @@ def random_fault_cases():
         scheme = draw(schemes.schemes(allow_full=False, max_datasets=2, labels="neutral"))
         for m in scheme["megacomplexes"].values():
             m["fault"] = True
+        scheme["expr_param"] = draw(st.booleans())
         # non-negative parameters are optimised as logarithms: recorded / restored values must be the actual ones
         scheme["non_negative"] = [l for l in scheme["free"] if l.startswith("r.") and draw(st.booleans())] + [
             f"{g}.{j+1}" for g in ("s", "ds") for j in range(len(scheme["parameters"].get(g, []))) if draw(st.booleans())]
